@@ -322,6 +322,26 @@ def impl_driver_path(name):
     return os.path.join(TARGET, "debug", "impl_" + name)
 
 
+RELEASE_TARGET = os.path.join(BUILD, "target-release")
+RELEASE_PACKAGES = ["resolved", "htoh", "htoz", "ztoh", "ztoz"]
+
+
+def build_release_binaries(packages=None):
+    """Release build of the real binaries from /repo's working tree, guard OFF."""
+    pk = packages or RELEASE_PACKAGES
+    with Lock("cargo"):
+        args = ["cargo", "build", "--offline", "--release"]
+        for p in pk:
+            args += ["-p", p]
+        env = {"CARGO_TARGET_DIR": RELEASE_TARGET, "RUSTFLAGS": ""}
+        rc, out = sh(args, cwd=REPO, env=env, timeout=3000)
+        return rc == 0, out
+
+
+def release_binary(name):
+    return os.path.join(RELEASE_TARGET, "release", name)
+
+
 # --------------------------------------------------------------------------
 # running streams
 # --------------------------------------------------------------------------
@@ -412,8 +432,10 @@ def main_check(mod, argv):
     notes = []
 
     # 1. proofs
-    ok, out = coq_make(getattr(mod, "COQ_TARGETS", ["Properties/%s.vo" % pid]))
-    nobl, per_file = count_obligations(getattr(mod, "COQ_TARGETS", ["Properties/%s.vo" % pid]))
+    # Base/TablesOk.vo: the lemmas about the tables regenerated from the Rust source (every property)
+    targets = list(getattr(mod, "COQ_TARGETS", ["Properties/%s.vo" % pid])) + ["Base/TablesOk.vo"]
+    ok, out = coq_make(targets)
+    nobl, per_file = count_obligations(targets)
     discharged = nobl if ok else 0
     axioms = {}
     if not ok:
@@ -433,6 +455,18 @@ def main_check(mod, argv):
             missing = [t for t in mod.THEOREMS if t not in axioms]
             if missing:
                 broken.append(("proof", "theorems missing: %s" % missing, ""))
+    coqchk_summary = None
+    if ok and tier == "thorough" and not args.replay:
+        # independent re-check of the compiled property file and everything it depends on
+        rc_c, out_c = sh(["coqchk", "-o", "-silent", "-Q", ".", "RV", "RV.Properties.%s" % pid], cwd=COQ, timeout=3000)
+        m = re.search(r"\* Axioms:(.*?)\n\s*\n\* Constants/Inductives relying on type-in-type:(.*?)\n", out_c, re.S)
+        coqchk_summary = trunc(out_c[out_c.find("CONTEXT SUMMARY"):], 1500)
+        if rc_c != 0:
+            broken.append(("coqchk", "coqchk failed on Properties/%s.vo" % pid, trunc(out_c[-1500:], 1500)))
+        elif not m or "<none>" not in m.group(1):
+            ax = m.group(1).strip() if m else "?"
+            if ax not in AXIOM_ALLOW:
+                broken.append(("coqchk", "coqchk reports axioms: %s" % ax, ""))
     bad = forbidden_vernacular()
     if bad:
         broken.append(("forbidden", "forbidden vernacular: %s" % bad[:5], ""))
@@ -564,6 +598,7 @@ def main_check(mod, argv):
             "theorems": mod.THEOREMS,
             "axioms_per_theorem": axioms,
             "qed_per_file": per_file,
+            "coqchk": coqchk_summary,
             "evaluations": evaluations,
             "distinct_nontrivial": distinct_nontrivial,
             "rule": getattr(mod, "RULE", ""),
